@@ -1042,6 +1042,12 @@ impl CodegenContext {
                 )?;
             }
             Token::MacroInvocation { id: name, args, .. } => {
+                // Every invocation gets its own number, also when the macro is not known yet (it may be defined further down):
+                // the scope of an invocation must keep its name from pass to pass, or it would inherit the symbols that another
+                // invocation left behind in an earlier pass
+                let macro_scope_id = self.next_macro_scope_id;
+                self.next_macro_scope_id += 1;
+
                 let def = self
                     .get_evaluator()
                     .get_symbol_filtered(
@@ -1065,9 +1071,7 @@ impl CodegenContext {
                         .expect_args(name.span, args.len(), def.args.len())
                         .map_err(|e| self.map_evaluation_error(e))?;
 
-                    let macro_scope =
-                        Identifier::new(format!("$macro_{}", self.next_macro_scope_id));
-                    self.next_macro_scope_id += 1;
+                    let macro_scope = Identifier::new(format!("$macro_{}", macro_scope_id));
 
                     // The arguments belong to the invocation, so they are evaluated in the scope of the invocation and not
                     // in the scope of the macro body, where a parameter would shadow a symbol of the same name that is used
